@@ -365,5 +365,5 @@ func enum(tier string) []Input {
 }
 
 func main() {
-	lib.Main(lib.Harness[Input]{Prop: "C12", Quick: 900, Thorough: 12000, Gen: gen, Enum: enum, Run: run})
+	lib.Main(lib.Harness[Input]{Prop: "C12", Quick: 900, Thorough: 8000, Gen: gen, Enum: enum, Run: run})
 }
